@@ -10,6 +10,9 @@
 (* kinds; built through the API or decoded) every history                    *)
 (*   marshal a -> one call on node x -> marshal b                            *)
 (* with a and b ranging over x and every node above x. One case per history. *)
+(* Origin mode (INIT OrigInit / NEXT OrigNext, exhaustive): how the objects  *)
+(* came to be - one container of every start tree made as a zero value, a    *)
+(* composite literal, by new(T), or decoded into a declared zero value.      *)
 (* Walk mode (INIT WalkInit / NEXT WalkNext, -simulate): random histories    *)
 (* of MaxSteps calls from the empty heap, objects detached, moved, shared,   *)
 (* re-decoded; each call followed by the marshal of a random node or none.   *)
@@ -36,12 +39,13 @@ TreeRec(op, n, how) ==
   IN [op |-> op, n |-> n, how |-> how, v |-> v, ids |-> PreIds(heap, n), enc |-> Enc(v), size |-> Size(v)]
 
 Log(rec) == lhist' = Append(lhist, rec)
-GNewC(kind)          == NewC(kind) /\ Log([op |-> "newc", kind |-> kind, id |-> Len(heap) + 1])
-GSetNew(n, k, s)     == SetNew(n, k, s) /\ Log([op |-> "setnew", n |-> n, key |-> k, val |-> s, id |-> Len(heap) + 1])
-GSetNewC(n, k, kind) == SetNewC(n, k, kind) /\ Log([op |-> "setnewc", n |-> n, key |-> k, kind |-> kind, id |-> Len(heap) + 1])
+\* o: how the new object is made (origin)
+GNewC(kind, o)          == NewC(kind, o) /\ Log([op |-> "newc", kind |-> kind, id |-> Len(heap) + 1, o |-> o])
+GSetNew(n, k, s, o)     == SetNew(n, k, s, o) /\ Log([op |-> "setnew", n |-> n, key |-> k, val |-> s, id |-> Len(heap) + 1, o |-> o])
+GSetNewC(n, k, kind, o) == SetNewC(n, k, kind, o) /\ Log([op |-> "setnewc", n |-> n, key |-> k, kind |-> kind, id |-> Len(heap) + 1, o |-> o])
 GSetNode(n, k, m)    == SetNode(n, k, m) /\ Log([op |-> "setnode", n |-> n, key |-> k, m |-> m])
 GAssign(n, s)        == Assign(n, s) /\ Log([op |-> "assign", n |-> n, val |-> s])
-GRedecode(n)         == Redecode(n) /\ Log(TreeRec("redecode", n, "decoded"))
+GRedecode(n, into)   == Redecode(n, into) /\ Log(TreeRec("redecode", n, "decoded") @@ [into |-> into])
 GMarshal(n)          == MarshalOf(n) /\ Log(MarshalRec(n))
 GNoObs               == NoObs /\ UNCHANGED lhist
 
@@ -72,14 +76,45 @@ Watched(x) == lpc = "call" /\ out.n # 0 /\ x \in Below(heap, out.n)
 Touched == LET r == lhist[Len(lhist)] IN IF r.op = "newc" THEN r.id ELSE r.n
 DirNext ==
   /\ UNCHANGED vars
-  /\ \/ \E n \in Ids, k \in DirKeys : Watched(n) /\ \/ \E s \in DirScalars : GSetNew(n, k, s)
-                                                    \/ \E kind \in Kinds : GSetNewC(n, k, kind)
+  /\ \/ \E n \in Ids, k \in DirKeys : Watched(n) /\ \/ \E s \in DirScalars : GSetNew(n, k, s, "new")
+                                                    \/ \E kind \in Kinds : GSetNewC(n, k, kind, "new")
      \/ \E n \in Ids, s \in DirScalars : Watched(n) /\ GAssign(n, s)
-     \/ \E n \in Ids : Watched(n) /\ GRedecode(n)
+     \/ \E n \in Ids : Watched(n) /\ GRedecode(n, "discovery")
      \/ \E n \in Ids : lpc = "obs" /\ nsteps = 0 /\ GMarshal(n)
      \/ \E n \in Ids : lpc = "obs" /\ nsteps > 0 /\ Touched \in Below(heap, n) /\ GMarshal(n)
 DirDone == lpc = "call" /\ nsteps = MaxSteps
 DirEmit == DirDone => PrintT(<<"CASE", ToJson(Case)>>)
+
+\* ------------------------------------------------------------- origin mode
+\* How the objects came to be (INIT OrigInit / NEXT OrigNext, breadth-first, exhaustive): every start tree with ONE
+\* container z - root, child or grandchild - made as a zero value / composite literal / new(T) and filled with Set
+\* (its scalars made the corresponding way), or decoded into a zero value the caller declared; then
+\*   marshal a -> z.Set(new name, scalar of every origin | empty container of z's origin) -> marshal a
+\* with a = z and every node above z.
+SOf(o) == CASE o = "zero" -> "zero" [] o = "lit" -> "conv" [] OTHER -> "new"
+OrigHeap(v, z, o) ==
+  LET h == HeapOf(v, 0)
+  IN [i \in 1..Len(h) |-> IF i = z THEN [h[i] EXCEPT !.o = o]
+                           ELSE IF i \in Kids(h, z) /\ h[i].t = "scalar" /\ Assignable(h[i].s) THEN [h[i] EXCEPT !.o = SOf(o)]
+                           ELSE h[i]]
+OrigLoad(v, how, z) ==
+  [op |-> "load", n |-> 1, how |-> how, v |-> v, ids |-> PreIds(heap, 1), enc |-> Enc(v), size |-> Size(v),
+   orig |-> [i \in 1..Len(heap) |-> heap[i].o], z |-> z]
+OrigInit ==
+  /\ Frozen /\ out = NoOut /\ cache = NoCache /\ nsteps = 0 /\ lpc = "obs"
+  /\ \E v \in DirTrees :
+       \/ \E z \in 1..Len(HeapOf(v, 0)), o \in COrigins \ {"new"} :
+            /\ IsC(HeapOf(v, 0), z) /\ heap = OrigHeap(v, z, o) /\ lhist = <<OrigLoad(v, "api", z)>>
+       \/ /\ StrictKeyed \/ ~HasStrict(v)
+          /\ heap = DecodedHeap(HeapOf(v, 0), 1, "zero") /\ lhist = <<OrigLoad(v, "decoded-zero", 1)>>
+OrigZ == lhist[1].z
+OrigNext ==
+  /\ UNCHANGED vars
+  /\ \/ \E n \in Ids : lpc = "obs" /\ nsteps = 0 /\ OrigZ \in Below(heap, n) /\ GMarshal(n)
+     \/ \E so \in SOrigins : Watched(OrigZ) /\ GSetNew(OrigZ, K3, NaNp, so)
+     \/ \E kind \in Kinds : Watched(OrigZ) /\ GSetNewC(OrigZ, K3, kind, IF heap[OrigZ].o = "dzero" THEN "zero" ELSE heap[OrigZ].o)
+     \/ lpc = "obs" /\ nsteps > 0 /\ GMarshal(lhist[2].n)
+OrigEmit == DirDone => PrintT(<<"CASE", ToJson(Case)>>)
 
 \* --------------------------------------------------------------- walk mode
 WalkScalarSeq == <<One, Null, Str5, NaNp, Bool(TRUE), Undef, Str(Fill(0, 0)), Str(Fill(300, 24)),
@@ -89,6 +124,8 @@ WalkKeySeq  == <<KE, KA, KB, K3, Fill(300, 4)>>
 WalkKeys    == {WalkKeySeq[i] : i \in 1..Len(WalkKeySeq)}
 KindSeq     == <<"obj", "strict", "ecma">>
 Pick(seq, i) == seq[(i % Len(seq)) + 1]
+COriginSeq  == <<"new", "zero", "lit", "new", "alloc">>
+SOriginSeq  == <<"new", "conv", "zero">>
 \* values of the node's own type, other than the one it has
 Others(s) == SelectSeq(WalkScalarSeq, LAMBDA x : x.t = s.t /\ x # s)
 
@@ -97,17 +134,18 @@ WalkInit ==
   /\ heap = <<>> /\ lhist = <<>>
 
 \* TLC's simulator picks uniformly among the successor states: what would only multiply them (the scalar,
-\* the kind of a new container, the name under which an existing object is attached) is a function of the
+\* the kind and the origin of a new object, the name under which an existing object is attached) is a function of the
 \* step number, so that the kinds of call stay comparably likely and all values occur
 WalkNext ==
   /\ UNCHANGED vars
-  /\ \/ GNewC(Pick(KindSeq, nsteps \div 3))
-     \/ \E n \in Ids, k \in Keys : \/ GSetNew(n, k, Pick(WalkScalarSeq, nsteps))
-                                   \/ GSetNewC(n, k, Pick(KindSeq, nsteps))
+  /\ \/ GNewC(Pick(KindSeq, nsteps \div 3), Pick(COriginSeq, nsteps))
+     \/ \E n \in Ids, k \in Keys : \/ LET s == Pick(WalkScalarSeq, nsteps)
+                                      IN GSetNew(n, k, s, IF Assignable(s) THEN Pick(SOriginSeq, nsteps \div 2) ELSE "new")
+                                   \/ GSetNewC(n, k, Pick(KindSeq, nsteps), Pick(COriginSeq, nsteps \div 2))
      \/ \E n \in Ids, m \in Ids : (IsC(heap, m) \/ IsRoot(heap, m)) /\ GSetNode(n, Pick(WalkKeySeq, nsteps + m), m)
      \/ \E n \in Ids, j \in 0..1 : /\ heap[n].t = "scalar" /\ Assignable(heap[n].s)
                                    /\ GAssign(n, Pick(Others(heap[n].s), nsteps + j))
-     \/ \E n \in Ids : GRedecode(n)
+     \/ \E n \in Ids : GRedecode(n, Pick(<<"discovery", "zero">>, nsteps))
      \* the observation: the node the call was made on or one above it (whose value the call changed), or one
      \* other node (whose value it did not change), or none
      \/ \E n \in Ids : lpc = "obs" /\ (Touched \in Below(heap, n) \/ n = (nsteps % Len(heap)) + 1) /\ GMarshal(n)
